@@ -1,6 +1,7 @@
 import NgVerif.Proofs.MiniShard
 import NgVerif.Proofs.Shard
 import NgVerif.Proofs.ShardImpl
+import NgVerif.Proofs.Buffers
 /-
   C05 — Sharded storage returns what was stored, whatever the order of writes.
   Statements are about one minishard (the unit of reordering); a shard file is a function of its
@@ -110,5 +111,15 @@ theorem stored_chunk_read_by_own_reader
 /-- non-vacuity, and the F8 layout: minishard 1 alone in a shard with two slots is read back by
     the package's reader -/
 example : implFetch 1 0 (fileOf 1 [⟨1, [7], [(1, 1)]⟩]) 1 = some [7] := by decide
+
+open NgVerif.Buffers in
+/-- buffering strategy: the disk-backed byte array is a drop-in for the in-memory one — after every
+    history of appends (failing ones included) its file holds what a `bytearray` receiving the successful
+    appends holds, and reports that length; hence the same `data` goes into the shard file under both
+    strategies -/
+theorem disk_buffer_equals_memory_buffer (hist : List (List Nat × Ev)) :
+    (runAdds add ⟨[], 0⟩ hist).file = memory hist ∧
+    (runAdds add ⟨[], 0⟩ hist).len = (memory hist).length := by
+  simpa using runAdds_spec ⟨[], 0⟩ rfl hist
 
 end NgVerif.Props.C05
